@@ -1288,6 +1288,20 @@ class Executor:
             return r
         return Opaque("math.prod")
 
+    def bi_copy_deepcopy(self, s, args, kw):
+        # a copy has the value of its argument; immutable values (numbers, strings, tuples of such, None) ARE their copies, a list is copied element-wise, anything else becomes
+        # an unknown value (no modelled property of the original is assumed to carry over, none is needed where the copy only replaces an argument that is passed on)
+        def cp(v):
+            if v is None or isinstance(v, (bool, int, float, str)) or z3.is_expr(v):
+                return v
+            if isinstance(v, tuple):
+                return tuple(cp(x) for x in v)
+            if isinstance(v, list):
+                return [cp(x) for x in v]
+            return Opaque("copy of %s" % (getattr(v, "label", None) or type(v).__name__))
+        return cp(args[0])
+    bi_copy_copy = bi_copy_deepcopy
+
     def bi_itertools_accumulate(self, s, args, kw):
         v = args[0]
         if isinstance(v, (tuple, list)) and len(args) == 1 and not kw:
